@@ -105,11 +105,11 @@ def sym_binop(I, name, a, b):
             return lift_int(S.and_mask(tb, ca))
         return SInt(S.uf("and")(ta, tb))
     if name == "rshift":
-        if cb is not None and cb >= 0:
+        if cb is not None and 0 <= cb <= 1024:
             return lift_int(ta / z3.IntVal(1 << cb))
         return SInt(S.uf("rshift")(ta, tb))
     if name == "lshift":
-        if cb is not None and cb >= 0:
+        if cb is not None and 0 <= cb <= 1024:
             return lift_int(ta * z3.IntVal(1 << cb))
         return SInt(S.uf("lshift")(ta, tb))
     return SInt(S.uf(name)(ta, tb))
@@ -143,14 +143,14 @@ def sym_compare(I, name, a, b):
             r = lift_bool(z3.Not(bterm(r))) if not isinstance(r, bool) else (not r)
         return r
     # symbolic scalar against an unrelated builtin object: never equal
-    if isinstance(a, Sym) and (b is None or b is ... or isinstance(b, (str, bytes, tuple, list, dict)) and not isinstance(b, Sym)):
+    if isinstance(a, Sym) and (b is None or b is ... or isinstance(b, (str, bytes, tuple, list, dict, range, set, frozenset, type)) and not isinstance(b, Sym)):
         if type(a) is SStr and isinstance(b, str):
             return NotImplemented
         if name == "eq":
             return False
         if name == "ne":
             return True
-    if isinstance(b, Sym) and (a is None or a is ... or isinstance(a, (str, bytes, tuple, list, dict)) and not isinstance(a, Sym)):
+    if isinstance(b, Sym) and (a is None or a is ... or isinstance(a, (str, bytes, tuple, list, dict, range, set, frozenset, type)) and not isinstance(a, Sym)):
         if name == "eq":
             return False
         if name == "ne":
@@ -233,6 +233,10 @@ def str_equal(a, b):
                 return False
             r = str_equal(SStr(ca), SStr(cb))
             return and_(lift_bool(z3.And(conds)) if conds else True, r)
+        if isinstance(x, FmtInt) and isinstance(y, str) and y[0] not in "-0123456789abcdefABCDEF":
+            return False  # an integer rendering never starts with such a character
+        if isinstance(y, FmtInt) and isinstance(x, str) and x[0] not in "-0123456789abcdefABCDEF":
+            return False
         if isinstance(x, Opaque) and isinstance(y, Opaque) and x.tag == y.tag:
             i += 1
             j += 1
@@ -761,13 +765,21 @@ def m_format(I, args, kwargs):
 def m_hash(I, args, kwargs):
     v = args[0]
     if isinstance(v, (SInt, SBool)):
-        return SInt(S.uf("hash", 1)(term(v)))
+        return lift_int(py_int_hash(term(v)))
     if isinstance(v, Sym):
         raise _I().Unsupported("hash of symbolic string")
     m = _I()._type_lookup(v, "__hash__")
     if m is not None and _I().is_repo_function(m):
         return (yield from I.call(m, (v,), {}))
     return I.native(hash, (v,), {})
+
+
+def py_int_hash(t):
+    """CPython's hash of an int (64-bit build): sign * (|v| mod (2**61 - 1)), with -1 mapped to -2"""
+    P = (1 << 61) - 1
+    a = z3.If(t >= 0, t, -t)
+    r = z3.If(t >= 0, a % P, -(a % P))
+    return z3.If(r == -1, z3.IntVal(-2), r)
 
 
 def m_bytes(I, args, kwargs):
